@@ -69,3 +69,8 @@ func gvcUnchangedOutside(b []byte) bool { panic("ghost") }
 
 // gvcFreshSlice(s): s is empty or its backing array was allocated during the call.
 func gvcFreshSlice[T any](s []T) bool { panic("ghost") }
+
+// gvcIsArmed(ch): the last context this goroutine sent on the timeout channel ch was
+// not context.Background(), i.e. timeoutLoop will close the connection when that
+// context ends (what bounds a blocked transport operation).
+func gvcIsArmed(ch any) bool { panic("ghost") }
